@@ -682,6 +682,345 @@ def drop_trivia(tree, ref):
     return total
 
 
+def pull_back_moved(tree, ref, path, model):
+    """A class or function the reference defines in this module that now lives in a NEW sibling module (one the reference tree
+    does not have) and is imported back: the definition is put back where the import stands.  Which file holds the text of a
+    definition has no bearing on what it does."""
+    if model is None or 'classes' not in ref:
+        return 0
+    want = set(ref.get('classes', [])) | {f for f in ref.get('funcs', []) if '.' not in f}
+    have = {q for q, _ in classes(tree)} | {q for q, _ in functions(tree) if '.' not in q}
+    missing = want - have
+    if not missing:
+        return 0
+    refmods = _ref()
+    total = 0
+    pkg = path.rsplit('/', 1)[0] if '/' in path else ''
+    for i, st in enumerate(list(tree.body)):
+        if not isinstance(st, ast.ImportFrom):
+            continue
+        names = [a for a in st.names if (a.asname or a.name) in missing and (a.asname is None or a.asname == a.name)]
+        if not names:
+            continue
+        if st.level:
+            base = pkg
+            for _ in range(st.level - 1):
+                base = base.rsplit('/', 1)[0] if '/' in base else ''
+            modpath = (base + '/' if base else '') + (st.module or '').replace('.', '/')
+        else:
+            modpath = (st.module or '').replace('.', '/')
+        cand = [c for c in (modpath + '.py', modpath + '/__init__.py') if model.exists(c)]
+        if not cand or cand[0] in refmods:
+            continue                       # not found, or a module the reference knows (a real dependency, not a move)
+        try:
+            other = ast.parse(model.source(cand[0]))
+        except SyntaxError:
+            continue
+        defs = {d.name: d for d in other.body if isinstance(d, (ast.ClassDef, ast.FunctionDef))}
+        moved = [defs[a.name] for a in names if a.name in defs]
+        if not moved:
+            continue
+        # the imports the moved code needs come along (behind the existing imports; duplicates are harmless)
+        extra = [d for d in other.body if isinstance(d, (ast.Import, ast.ImportFrom)) and not (isinstance(d, ast.ImportFrom) and d.level and
+                 (d.module or '').split('.')[0] == path.rsplit('/', 1)[-1][:-3])]
+        st.names = [a for a in st.names if a.name not in {d.name for d in moved}]
+        idx = tree.body.index(st)
+        tree.body[idx + 1:idx + 1] = extra + moved
+        if not st.names:
+            tree.body.remove(st)
+        total += len(moved)
+    return total
+
+
+def lower_match(tree, ref):
+    """`match subject: case P: ...` with value, literal, class (`T()`), or-patterns and `_`  ->  the if / elif / else chain it stands
+    for (`subject == V`, `isinstance(subject, T)`); a subject that is not a plain name or attribute chain is bound to a local first."""
+    total = 0
+
+    def test_of(pat, subj):
+        if isinstance(pat, ast.MatchValue):
+            return ast.Compare(left=copy.deepcopy(subj), ops=[ast.Eq()], comparators=[pat.value])
+        if isinstance(pat, ast.MatchSingleton):
+            return ast.Compare(left=copy.deepcopy(subj), ops=[ast.Is()], comparators=[ast.Constant(value=pat.value)])
+        if isinstance(pat, ast.MatchClass) and not pat.patterns and not pat.kwd_patterns:
+            return ast.Call(func=ast.Name(id='isinstance', ctx=ast.Load()), args=[copy.deepcopy(subj), pat.cls], keywords=[])
+        if isinstance(pat, ast.MatchOr):
+            parts = [test_of(p_, subj) for p_ in pat.patterns]
+            if any(p_ is None for p_ in parts):
+                return None
+            if all(isinstance(p_, ast.Call) for p_ in parts):
+                return ast.Call(func=ast.Name(id='isinstance', ctx=ast.Load()), args=[copy.deepcopy(subj), ast.Tuple(elts=[p_.args[1] for p_ in parts], ctx=ast.Load())], keywords=[])
+            return ast.BoolOp(op=ast.Or(), values=parts)
+        return None
+    for q, fn in functions(tree):
+        for block in _blocks(fn):
+            for i, st in enumerate(block):
+                if not isinstance(st, ast.Match):
+                    continue
+                subj = st.subject
+                lead = []
+                simple = isinstance(subj, ast.Name) or (isinstance(subj, ast.Attribute) and _root(subj) is not None) or \
+                    (isinstance(subj, ast.Subscript) and isinstance(subj.slice, ast.Constant) and _root(subj) is not None)
+                if not simple:
+                    if not _harmless(subj):
+                        continue
+                tests, ok = [], True
+                for c in st.cases:
+                    if isinstance(c.pattern, ast.MatchAs) and c.pattern.pattern is None and c.pattern.name is None:
+                        t = None                           # case _
+                    else:
+                        t = test_of(c.pattern, subj)
+                        if t is None:
+                            ok = False
+                            break
+                    if c.guard is not None:
+                        t = c.guard if t is None else ast.BoolOp(op=ast.And(), values=[t, c.guard])
+                    tests.append((t, c.body))
+                if not ok or not tests:
+                    continue
+                chain = None
+                for t, body in reversed(tests):
+                    if t is None:
+                        chain = list(body)
+                    else:
+                        node = ast.copy_location(ast.If(test=t, body=list(body), orelse=chain if isinstance(chain, list) else ([chain] if chain is not None else [])), st)
+                        chain = node
+                new = chain if isinstance(chain, list) else [chain]
+                block[i:i + 1] = lead + new
+                total += 1
+    if total:
+        ast.fix_missing_locations(tree)
+    return total
+
+
+def dissolve_enums(tree, ref):
+    """A NEW enum class (IntEnum / Enum with literal values) that gathers constants the reference keeps as plain names: a use of
+    `E.MEMBER` is written with the old name when an alias `OLD = E.MEMBER` exists (module level or class level), otherwise with the
+    literal value (IntEnum members equal their values; .value is the literal for both)."""
+    known_classes = set(ref.get('classes', [])) if 'classes' in ref else None
+    if known_classes is None:
+        return 0
+    enums = {}
+    for st in tree.body:
+        if isinstance(st, ast.ClassDef) and st.name not in known_classes and any(_txt(b).split('.')[-1] in ('IntEnum', 'Enum', 'IntFlag') for b in st.bases):
+            members = {}
+            for s_ in st.body:
+                if isinstance(s_, ast.Assign) and len(s_.targets) == 1 and isinstance(s_.targets[0], ast.Name):
+                    try:
+                        v = _literal(s_.value, {})
+                    except ValueError:
+                        continue
+                    if isinstance(v, (int, str)) and not isinstance(v, bool):
+                        members[s_.targets[0].id] = v
+            if members:
+                enums[st.name] = (members, any(_txt(b).split('.')[-1] in ('IntEnum', 'IntFlag') for b in st.bases))
+    if not enums:
+        return 0
+
+    def member(e):
+        """(enum, member) for  E.M  /  E.M.value  /  int(E.M)"""
+        if isinstance(e, ast.Attribute) and e.attr == 'value':
+            e = e.value
+        if isinstance(e, ast.Call) and isinstance(e.func, ast.Name) and e.func.id == 'int' and len(e.args) == 1:
+            e = e.args[0]
+        if isinstance(e, ast.Attribute) and isinstance(e.value, ast.Name) and e.value.id in enums and e.attr in enums[e.value.id][0]:
+            return e.value.id, e.attr
+        return None
+    # aliases: OLD = E.M at module level / inside a class the reference knows
+    alias = {}
+    alias_stmts = []
+    for holder, body, prefix in [(None, tree.body, '')] + [(c, c.body, c.name + '.') for q, c in classes(tree) if c.name not in enums]:
+        for s_ in body:
+            if isinstance(s_, ast.Assign) and len(s_.targets) == 1 and isinstance(s_.targets[0], ast.Name):
+                mm = member(s_.value)
+                if mm:
+                    alias.setdefault(mm, prefix + s_.targets[0].id)
+                    alias_stmts.append((s_, enums[mm[0]][0][mm[1]]))
+    total = [0]
+
+    class T(ast.NodeTransformer):
+        def visit_Attribute(self, n):
+            mm = member(n)
+            if mm and isinstance(n.ctx, ast.Load):
+                total[0] += 1
+                if mm in alias:
+                    return ast.copy_location(ast.parse(alias[mm], mode='eval').body, n)
+                return _const_node(enums[mm[0]][0][mm[1]], n)
+            self.generic_visit(n)
+            return n
+
+        def visit_Call(self, n):
+            mm = member(n)
+            if mm:
+                total[0] += 1
+                return _const_node(enums[mm[0]][0][mm[1]], n)
+            self.generic_visit(n)
+            return n
+
+        def visit_ClassDef(self, n):
+            if n.name in enums:
+                return n
+            self.generic_visit(n)
+            return n
+    for s_, v in alias_stmts:
+        s_.value = _const_node(v, s_.value)
+    for i, st in enumerate(tree.body):
+        tree.body[i] = T().visit(st)
+    return total[0]
+
+
+def _namedtuple_fields(cls):
+    """field names of `class X(NamedTuple): a: T; b: T = d` (no methods other than dunder-free helpers), else None"""
+    if not any(_txt(b).split('.')[-1] == 'NamedTuple' for b in cls.bases):
+        return None
+    fields = []
+    for st in cls.body:
+        if isinstance(st, ast.AnnAssign) and isinstance(st.target, ast.Name):
+            fields.append((st.target.id, st.value))
+        elif isinstance(st, ast.Expr) and isinstance(st.value, ast.Constant):
+            continue
+        else:
+            return None
+    return fields or None
+
+
+def dissolve_namedtuples(tree, ref):
+    """(1) a NEW `class X(NamedTuple)` used to give names to a tuple the reference passes around bare: `X(a, b)` is the tuple `(a, b)`,
+    and `.field` - when no attribute of that name exists in the reference module - is the index.  (2) a record the reference builds
+    with collections.namedtuple that is now spelled as a typing.NamedTuple class goes back to `X = namedtuple('X', 'a b ..')`."""
+    if 'classes' not in ref:
+        return 0
+    known_classes, known_consts, known_attrs = set(ref.get('classes', [])), set(ref.get('consts', [])), set(ref.get('attr_names', []))
+    total = 0
+    new_nt = {}
+    for i, st in enumerate(list(tree.body)):
+        if not isinstance(st, ast.ClassDef):
+            continue
+        fields = _namedtuple_fields(st)
+        if fields is None:
+            continue
+        if st.name in known_consts and st.name not in known_classes and all(d is None for _, d in fields):
+            call = ast.Call(func=ast.Name(id='namedtuple', ctx=ast.Load()), args=[ast.Constant(value=st.name), ast.Constant(value=' '.join(f for f, _ in fields))], keywords=[])
+            tree.body[tree.body.index(st)] = ast.copy_location(ast.Assign(targets=[ast.Name(id=st.name, ctx=ast.Store())], value=call, lineno=st.lineno), st)
+            total += 1
+        elif st.name not in known_classes and st.name not in known_consts:
+            new_nt[st.name] = fields
+    if not new_nt:
+        return total
+    index_of = {}
+    for nm, fields in new_nt.items():
+        for k, (f, _) in enumerate(fields):
+            if f in known_attrs or f in index_of:
+                index_of[f] = None                    # ambiguous / also a real attribute: leave reads alone
+            else:
+                index_of[f] = k
+    cnt = [0]
+
+    class T(ast.NodeTransformer):
+        def visit_Call(self, n):
+            self.generic_visit(n)
+            nm = n.func.id if isinstance(n.func, ast.Name) else None
+            if nm in new_nt and not any(isinstance(a, ast.Starred) for a in n.args) and all(k.arg for k in n.keywords):
+                fields = new_nt[nm]
+                vals = list(n.args)
+                kw = {k.arg: k.value for k in n.keywords}
+                for f, d in fields[len(vals):]:
+                    if f in kw:
+                        vals.append(kw[f])
+                    elif d is not None:
+                        vals.append(copy.deepcopy(d))
+                    else:
+                        return n
+                if len(vals) == len(fields):
+                    cnt[0] += 1
+                    return ast.copy_location(ast.Tuple(elts=vals, ctx=ast.Load()), n)
+            return n
+
+        def visit_Attribute(self, n):
+            self.generic_visit(n)
+            if isinstance(n.ctx, ast.Load) and index_of.get(n.attr) is not None and not (isinstance(n.value, ast.Name) and n.value.id in ('self', 'cls')):
+                cnt[0] += 1
+                return ast.copy_location(ast.Subscript(value=n.value, slice=ast.Constant(value=index_of[n.attr]), ctx=ast.Load()), n)
+            return n
+
+        def visit_ClassDef(self, n):
+            if n.name in new_nt:
+                return n
+            self.generic_visit(n)
+            return n
+    for i, st in enumerate(tree.body):
+        tree.body[i] = T().visit(st)
+    # annotations that mention the new classes say nothing at run time: drop return annotations naming them
+    for q, fn in functions(tree):
+        if fn.returns is not None and any(isinstance(x, ast.Name) and x.id in new_nt for x in ast.walk(fn.returns)):
+            fn.returns = None
+    return total + cnt[0]
+
+
+def undo_dataclasses(tree, ref):
+    """@dataclass on a class whose __init__ the reference wrote by hand: the generated constructor is written out - one parameter per
+    init field in order (defaults kept; default_factory fields get a None-free fresh value in the body), `self.f = f` for each, then
+    the init=False fields, then the body of __post_init__."""
+    known = set(ref.get('funcs', []))
+    total = 0
+    for q, c in classes(tree):
+        deco = [d for d in c.decorator_list if _txt(d.func if isinstance(d, ast.Call) else d).split('.')[-1] == 'dataclass']
+        if not deco or (q + '.__init__') not in known or any(isinstance(st, ast.FunctionDef) and st.name == '__init__' for st in c.body):
+            continue
+        params, defaults, body, tail = [ast.arg(arg='self')], [], [], []
+        ok = True
+        for st in list(c.body):
+            if not (isinstance(st, ast.AnnAssign) and isinstance(st.target, ast.Name)):
+                continue
+            if _txt(st.annotation).startswith('ClassVar'):
+                continue
+            f, v = st.target.id, st.value
+            init, dflt, factory = True, None, None
+            if isinstance(v, ast.Call) and _txt(v.func).split('.')[-1] == 'field':
+                kw = {k.arg: k.value for k in v.keywords}
+                init = not (isinstance(kw.get('init'), ast.Constant) and kw['init'].value is False)
+                dflt, factory = kw.get('default'), kw.get('default_factory')
+            elif v is not None:
+                dflt = v
+            tgt = ast.Attribute(value=ast.Name(id='self', ctx=ast.Load()), attr=f, ctx=ast.Store())
+            if init:
+                if factory is not None:
+                    ok = False                    # a caller may pass it: keep exact semantics out of reach
+                    break
+                params.append(ast.arg(arg=f))
+                if dflt is not None:
+                    defaults.append(dflt)
+                elif defaults:
+                    ok = False
+                    break
+                body.append(ast.copy_location(ast.Assign(targets=[tgt], value=ast.Name(id=f, ctx=ast.Load()), lineno=st.lineno), st))
+            else:
+                val = ast.Call(func=factory, args=[], keywords=[]) if factory is not None else dflt
+                if val is None:
+                    continue
+                tail.append(ast.copy_location(ast.Assign(targets=[tgt], value=val, lineno=st.lineno), st))
+            c.body.remove(st)
+        if not ok:
+            continue
+        post = [st for st in c.body if isinstance(st, ast.FunctionDef) and st.name == '__post_init__']
+        extra = []
+        if post and len(post[0].args.args) == 1:
+            extra = post[0].body
+            c.body.remove(post[0])
+        init_fn = ast.FunctionDef(name='__init__', args=ast.arguments(posonlyargs=[], args=params, vararg=None, kwonlyargs=[], kw_defaults=[], kwarg=None, defaults=defaults),
+                                  body=(body + tail + list(extra)) or [ast.Pass()], decorator_list=[], returns=None, type_comment=None, type_params=[])
+        ast.copy_location(init_fn, c)
+        at = 0
+        while at < len(c.body) and (_has_doc(c.body[at:at + 1]) or isinstance(c.body[at], (ast.Assign, ast.AnnAssign))):
+            at += 1
+        c.body.insert(at, init_fn)
+        c.decorator_list = [d for d in c.decorator_list if d not in deco]
+        total += 1
+    if total:
+        ast.fix_missing_locations(tree)
+    return total
+
+
 def restore_self(tree, ref):
     """A method the reference wrote with `self` that was made a @staticmethod (it never used self) gets its first parameter back;
     `Class.m(..)` calls from methods of the class become `self.m(..)`.  Which object the function is looked up on does not change what
@@ -821,6 +1160,8 @@ def shape_of(tree):
         'comps': {q: comp_texts(f) for q, f in functions(tree) if comp_texts(f)},
         'consts': sorted(const_names(tree)),
         'funcs': sorted(q for q, _ in functions(tree)),
+        'classes': sorted(q for q, _ in classes(tree)),
+        'attr_names': sorted({n.attr for n in ast.walk(tree) if isinstance(n, ast.Attribute)}),
         'func_order': [q for q, _ in functions(tree)],
         'attrs': {q: class_attr_order(c) for q, c in classes(tree)},
         'ifexps': {q: ifexp_texts(f) for q, f in functions(tree) if ifexp_texts(f)},
@@ -2196,7 +2537,7 @@ def _rebound_around(fn, name_node):
 
 
 # ---------------------------------------------------------------------------------------------- driver
-def normalise(tree, path, ref_locals):
+def normalise(tree, path, ref_locals, model=None):
     """-> dict of counts per rewrite (empty if nothing changed)"""
     if os.environ.get('VERIF_NO_UNREFACTOR'):
         return {}
@@ -2204,7 +2545,8 @@ def normalise(tree, path, ref_locals):
     if ref is None:
         return {}
     out = {}
-    for name, fn in (('annotations', lambda: strip_annotations(tree, ref)), ('imports', lambda: normalise_imports(tree, ref)), ('attributes', lambda: rename_attributes(tree, ref)),
+    for name, fn in (('moved', lambda: pull_back_moved(tree, ref, path, model)), ('match', lambda: lower_match(tree, ref)), ('enums', lambda: dissolve_enums(tree, ref)), ('namedtuples', lambda: dissolve_namedtuples(tree, ref)), ('dataclasses', lambda: undo_dataclasses(tree, ref)),
+                     ('annotations', lambda: strip_annotations(tree, ref)), ('imports', lambda: normalise_imports(tree, ref)), ('attributes', lambda: rename_attributes(tree, ref)),
                      ('methods', lambda: rename_methods(tree, ref)), ('formats', lambda: restyle_formats(tree, ref)), ('closures', lambda: restore_closures(tree, ref)), ('self', lambda: restore_self(tree, ref)), ('tuples', lambda: split_tuple_bindings(tree, ref)), ('suppress', lambda: expand_suppress(tree, ref)), ('constants', lambda: _constants(tree, ref)),
                      ('observability', lambda: drop_observability(tree, ref)), ('params', lambda: default_new_params(tree, ref) + default_new_params(tree, ref)), ('initliterals', lambda: inline_init_literals(tree, ref)),
                      ('structs', lambda: inline_struct_objects(tree, ref)),
